@@ -595,6 +595,8 @@ pub struct TcpClient {
     pub ttl: u8,
     pub window: u16,
     pub options: Vec<u8>,
+    /// option area of every segment that is not a SYN (timestamps, SACK blocks, odd ones)
+    pub data_options: Vec<u8>,
     /// the tuple is reused: a new SYN is sent between two messages
     pub resyn: bool,
     /// urgent pointer carried by segments that have URG set (0, inside or beyond the payload)
@@ -679,7 +681,8 @@ impl TcpClient {
             rto_us: *rng.pick(&[200_000u64, 1_000_000, 3_000_000]),
             ttl: rng.range(1, 255) as u8,
             window: rng.u16(),
-            options: if rng.chance(1, 3) { vec![2, 4, 5, 0xb4, 1, 3, 3, 7] } else { Vec::new() },
+            options: if rng.chance(2, 5) { gen_tcp_options(rng, true) } else { Vec::new() },
+            data_options: if rng.chance(1, 4) { gen_tcp_options(rng, false) } else { Vec::new() },
             resyn: rng.chance(1, 6),
             rexmit: *rng.pick(&[0u8, 0, 0, 0, 0, 1, 1, 2]),
             urg_ptr: *rng.pick(&[0u16, 0, 1, 1, 2, 3, 5, 16, 0xffff]),
@@ -698,7 +701,7 @@ impl TcpClient {
             flags,
             window: self.window,
             urg: if flags & F_URG != 0 { self.urg_ptr } else { 0 },
-            options: if opts { self.options.clone() } else { Vec::new() },
+            options: if opts { self.options.clone() } else { self.data_options.clone() },
         };
         let t = tcp(&f, payload, &self.a.src, &self.a.dst);
         frame_ip(&self.a.dmac, &self.a.smac, &self.a.src, &self.a.dst, P_TCP, &t, self.ttl)
@@ -925,6 +928,83 @@ pub struct Scanner {
 
 pub type Tuple = (usize, Addr, u16, u16);
 
+/// A TCP option area (a multiple of four bytes, at most forty): what stacks really send (MSS,
+/// window scale, SACK-permitted, timestamps, in the usual orders and paddings) and, now and then,
+/// a hostile one (length bytes 0 and 1, lengths running past the header, unknown kinds, noise).
+pub fn gen_tcp_options(rng: &mut Rng, syn: bool) -> Vec<u8> {
+    let ts = |rng: &mut Rng| -> Vec<u8> {
+        let mut v = vec![8u8, 10];
+        v.extend_from_slice(&rng.u32().to_be_bytes());
+        v.extend_from_slice(&(if rng.chance(1, 2) { 0 } else { rng.u32() }).to_be_bytes());
+        v
+    };
+    let mut v: Vec<u8> = match rng.below(8) {
+        0 if syn => vec![2, 4, 5, 0xb4],
+        1 if syn => vec![2, 4, 5, 0xb4, 1, 3, 3, 7],
+        2 if syn => {
+            // Linux: MSS, SACK permitted, timestamps, NOP, window scale
+            let mut v = vec![2u8, 4, 5, 0xb4, 4, 2];
+            v.extend(ts(rng));
+            v.extend_from_slice(&[1, 3, 3, 7]);
+            v
+        }
+        3 if syn => {
+            // Windows / BSD flavours
+            let mut v = vec![2u8, 4, 5, 0xb4, 1, 3, 3, 8, 1, 1];
+            v.extend(ts(rng));
+            v.extend_from_slice(&[4, 2, 0, 0]);
+            v
+        }
+        0 | 1 | 2 => {
+            let mut v = vec![1u8, 1];
+            v.extend(ts(rng));
+            v
+        }
+        3 => {
+            // timestamps first, padded with end-of-list
+            let mut v = ts(rng);
+            v.extend_from_slice(&[0, 0]);
+            v
+        }
+        4 => {
+            // SACK blocks behind the timestamps
+            let mut v = vec![1u8, 1];
+            v.extend(ts(rng));
+            v.extend_from_slice(&[1, 1, 5, 10]);
+            v.extend_from_slice(&rng.bytes(8));
+            v
+        }
+        5 => {
+            // a TLV walk with odd lengths: zero, one, past the end, unknown kinds
+            let mut v = Vec::new();
+            let n = rng.range(1, 5);
+            for _ in 0..n {
+                match rng.below(6) {
+                    0 => v.push(1),
+                    1 => v.extend_from_slice(&[*rng.pick(&[2u8, 3, 4, 5, 8, 19, 28, 30, 34, 253, 254, 255]), 0]),
+                    2 => v.extend_from_slice(&[*rng.pick(&[2u8, 3, 4, 8, 254]), 1]),
+                    3 => v.extend_from_slice(&[*rng.pick(&[2u8, 3, 5, 8, 254]), *rng.pick(&[40u8, 41, 127, 128, 255])]),
+                    4 => {
+                        let l = rng.range(2, 9) as usize;
+                        v.push(rng.range(2, 256) as u8);
+                        v.push(l as u8);
+                        v.extend_from_slice(&rng.bytes(l - 2));
+                    }
+                    _ => v.extend(ts(rng)),
+                }
+            }
+            v
+        }
+        6 => rng.bytes_mul(11, 4),
+        _ => vec![0, 0, 0, 0],
+    };
+    v.truncate(40);
+    while v.len() % 4 != 0 {
+        v.push(if rng.chance(1, 2) { 0 } else { 1 });
+    }
+    v
+}
+
 fn tcp_frame(a: &Addr, sport: u16, dport: u16, seq: u32, ack: u32, flags: u16, payload: &[u8], rng: &mut Rng) -> Vec<u8> {
     let f = TcpFields {
         sport,
@@ -934,7 +1014,7 @@ fn tcp_frame(a: &Addr, sport: u16, dport: u16, seq: u32, ack: u32, flags: u16, p
         flags,
         window: rng.u16(),
         urg: if rng.chance(1, 8) { rng.u16() } else { 0 },
-        options: if rng.chance(1, 4) { vec![2, 4, 5, 0xb4] } else { Vec::new() },
+        options: if rng.chance(1, 3) { gen_tcp_options(rng, flags & F_SYN != 0) } else { Vec::new() },
     };
     let t = tcp(&f, payload, &a.src, &a.dst);
     frame_ip(&a.dmac, &a.smac, &a.src, &a.dst, P_TCP, &t, rng.range(1, 255) as u8)
@@ -1369,6 +1449,7 @@ impl TcpClient {
             ttl: self.ttl,
             window: rng.u16(),
             options: Vec::new(),
+            data_options: Vec::new(),
             resyn: false,
             rexmit: 0,
             urg_ptr: 0,
@@ -1409,6 +1490,7 @@ impl TcpClient {
             ttl: self.ttl,
             window: rng.u16(),
             options: Vec::new(),
+            data_options: Vec::new(),
             resyn: false,
             rexmit: 0,
             urg_ptr: 0,
